@@ -21,6 +21,25 @@ def case_gen(rng, k):
         # a set_data towards a simulator without async_requests connection must be refused
         case['beh'][1].setdefault('set_data', {})['0,0'] = [['S0', 'i', 'setX@0']]
         case['expect_refusal'] = True
+    elif k % 7 in (2, 4):
+        # ... also when the same simulator has made permitted requests before (in the same step or in earlier steps)
+        asyncs = [e for e in case['edges'] if e.get('async')]
+        if asyncs:
+            e = rng.choice(asyncs); b = e['b']
+            targets = [x for x in range(case['n']) if x != b and not any(f.get('async') and f['a'] == x and f['b'] == b for f in case['edges'])]
+            if targets:
+                x = rng.choice(targets)
+                attr = {'time-based': 'i', 'event-based': 'ti', 'hybrid': 'i'}[case['types'][x]]
+                tt = rng.randint(0, max(0, case['until'] - 1))
+                sd = case['beh'][b].setdefault('set_data', {})
+                # make sure a permitted request precedes it in that step
+                ins = {'time-based': ['i'], 'event-based': ['ti', 't2'], 'hybrid': ['i', 'ti', 't2']}[case['types'][e['a']]]
+                free = [y for y in ins if not any(f['a'] == b and f['b'] == e['a'] and f['da'] == y for f in case['edges'])]
+                lst = sd.setdefault(f'{tt},0', [])
+                if free and not lst: lst.append([f"S{e['a']}", free[0], f'set{b}.0@{tt}', 0])
+                lst.append([f'S{x}', attr, f'setX@{tt}', 0])
+                case['beh'][b].pop('set_data_batched', None)
+                case['expect_refusal'] = True
     return case
 
 
